@@ -27,6 +27,9 @@ import Golib.Cal.DateFormatProof
 import Golib.Cal.TableStruct
 import Golib.Cal.CivilSucc
 import Golib.Cal.DateFormatObjProof
+import Golib.Cal.Gregorian
+import Golib.Cal.ObjHistory
+import Golib.Cal.PkgProof
 
 namespace C19
 open Cal
@@ -76,6 +79,36 @@ theorem spec_day_by_day_all (z : Nat) :
 
 /-- `isYun` on the offset is the Gregorian rule of the year for **every** offset (2000 ≡ 0 mod 400) -/
 theorem leap_rule_all (y : Nat) : isYun y = isLeap (y + 2000) := isYun_eq_isLeap y
+
+/-! ## the specification: the calendar by counting days
+
+  `gregorian z` = start at 1970-01-01 and apply the textbook next-day rule z times (month lengths,
+  leap years: divisible by 4 and not by 100, or by 400); `weekdayIter z` = start at Thursday and
+  step modulo 7.  This independent, obviously-right definition is what "the standard calendar" means
+  here; Go's time package is only the oracle of tie B. -/
+
+/-- the closed forms used everywhere else are the counted calendar — for ALL days (all years) -/
+theorem calendar_by_counting (z : Nat) : civil z = gregorian z ∧ weekdayMon z = weekdayIter z :=
+  ⟨civil_eq_gregorian z, weekdayMon_eq_iter z⟩
+
+/-- days ↔ (y, m, d) are inverse bijections with respect to the counted calendar -/
+theorem counting_inverse (z y m d : Nat) (hy : 1970 ≤ y) (hv : ValidDate y m d) :
+    daysFromCivil (gregorian z).y (gregorian z).m (gregorian z).d = z ∧
+    ValidDate (gregorian z).y (gregorian z).m (gregorian z).d ∧
+    gregorian (daysFromCivil y m d) = ⟨y, m, d⟩ :=
+  ⟨days_of_gregorian z, gregorian_valid z, gregorian_of_date y m d hy hv⟩
+
+/-- specialised to the century where the code's table applies: the table entries and the
+    date/weekday helpers, stated against the counted calendar -/
+theorem helpers_agree_with_counted_calendar (t : Int) (h : InCentury t) :
+    yyyymmdd t = some (specYmd (gregorian (dayOf t))) ∧ weekdayIdx t = some (weekdayIter (dayOf t)) := by
+  rw [← civil_eq_gregorian, ← weekdayMon_eq_iter]
+  exact ⟨yyyymmdd_eq t h, weekdayIdx_eq t h⟩
+
+theorem table_is_counted_calendar (i : Nat) (h : i < 36525) :
+    dateTable[i]? = some ⟨(gregorian (10957 + i)).y, (gregorian (10957 + i)).m, (gregorian (10957 + i)).d,
+      weekdayIter (10957 + i), 946684800000 + (i : Int) * 86400000⟩ := by
+  rw [← civil_eq_gregorian, ← weekdayMon_eq_iter]; exact dateTable_get i h
 
 /-! ## the table built by open() -/
 
@@ -309,6 +342,71 @@ theorem finding_reuse :
     (parseObj {} "y-m-d".toList (fieldsOf 1790728444999) "2025-03-01".toList).2 = some 1740789244999 := by
   decide +kernel
 
+/-! ## whole histories on one DateFormat object -/
+
+/-- splitting a history: the second part runs from the map the first part left -/
+theorem obj_history_append (pat : List Char) (h1 h2 : List (Fields × List Char)) (st : PStateZ) :
+    parseHistory pat st (h1 ++ h2) = parseHistory pat st h1 ++ parseHistory pat (stateAfter pat st h1) h2 :=
+  parseHistory_append pat h1 h2 st
+
+/-- all seven letters: after ANY earlier history (arbitrary texts, failing calls included — `st` is
+    arbitrary) a run of calls on format outputs returns exactly the formatted instants -/
+theorem obj_history_all (pat : List Char) (hall : ∀ c ∈ ['y', 'm', 'd', 'H', 'M', 'S', 's'], c ∈ pat)
+    (calls : List (Fields × Nat)) (st : PStateZ)
+    (hr : ∀ c ∈ calls, 365 * MS_DAY ≤ c.2 ∧ c.2 < 2900000 * MS_DAY) :
+    parseHistory pat st (calls.map fun c => (c.1, format pat (fieldsOf c.2))) =
+      calls.map fun c => some (c.2 : Int) := parseHistory_all pat hall calls st hr
+
+/-- a full map (any earlier success): the call's result and the map it leaves do not depend on
+    the clock, for ANY text … -/
+theorem obj_full_clock_free (st : PStateZ) (pat : List Char) (now₁ now₂ : Fields) (inp : List Char)
+    (h : st.Full) : parseObj st pat now₁ inp = parseObj st pat now₂ inp :=
+  parseObj_full_clock_free st pat now₁ now₂ inp h
+
+/-- … hence whole histories with the same texts and different clock readings agree call by call -/
+theorem obj_history_clock_free (pat : List Char) (calls : List (Fields × Fields × List Char)) (st : PStateZ)
+    (h : st.Full) :
+    parseHistory pat st (calls.map fun c => (c.1, c.2.2)) = parseHistory pat st (calls.map fun c => (c.2.1, c.2.2)) :=
+  parseHistory_clock_free pat calls st h
+
+/-- the repair proposed for the reuse defect (map cleared on entry): every call of any history is a
+    call on a fresh object -/
+theorem obj_reset_history_fresh (pat : List Char) (calls : List (Fields × List Char)) (st : PStateZ) :
+    parseHistoryReset pat st calls = calls.map fun c => (parseObj {} pat c.1 c.2).2 :=
+  parseHistoryReset_fresh pat calls st
+
+/-! ## the exported functions as a state machine (DateUtil.go): frame and purity over histories -/
+
+/-- only SetDelta / SetServerTime change the package state -/
+theorem pkg_frame (clock : Int) (s : Pkg) (c : Call) (h : c.isSetter = false) : (step clock s c).1 = s :=
+  step_frame clock s c h
+
+/-- at any position of any history — whatever calls came before, setters included, whatever the
+    clock — an instant- or string-taking helper answers what it answers alone -/
+theorem pkg_history_pure (h : List (Int × Call)) (s : Pkg) (k : Nat) (clock : Int) (c : Call) (a : Ans)
+    (hk : h[k]? = some (clock, c)) (hp : pureAns c = some a) : (run s h)[k]? = some a :=
+  run_pure h s k clock c a hk hp
+
+/-- the clock-reading variants render SystemNow() + delta, delta being what the last setter left -/
+theorem pkg_now_variants (h : List (Int × Call)) (s : Pkg) (clock : Int) :
+    run s (h ++ [(clock, .timeStampNow)]) = run s h ++ [.str (timestamp (clock + (pkgAfter s h).delta))] ∧
+    run s (h ++ [(clock, .ymdNow)]) = run s h ++ [.str (yyyymmdd (clock + (pkgAfter s h).delta))] ∧
+    run s (h ++ [(clock, .dateUnitNow)]) = run s h ++ [.int (some (getDateUnit (clock + (pkgAfter s h).delta)))] ∧
+    run s (h ++ [(clock, .now)]) = run s h ++ [.int (some (clock + (pkgAfter s h).delta))] := run_now h s clock
+
+theorem pkg_setDelta (h : List (Int × Call)) (s : Pkg) (clock d : Int) :
+    pkgAfter s (h ++ [(clock, .setDelta d)]) = ⟨d⟩ := pkgAfter_setDelta h s clock d
+
+/-! ## DateFormat in a zone with constant offset (non-hour offsets included) -/
+
+/-- format in the zone, Parse with time.Local in the same zone: identity on instants for patterns with
+    all seven letters, on any object -/
+theorem format_parse_fixed_offset (off : Int) (st : PStateZ) (pat : List Char) (now t : Nat)
+    (h1 : 365 * (MS_DAY : Int) ≤ (t : Int) + off) (h2 : (t : Int) + off < 2900000 * (MS_DAY : Int))
+    (hall : ∀ c ∈ ['y', 'm', 'd', 'H', 'M', 'S', 's'], c ∈ pat) :
+    (parseObjIn off st pat now (formatIn off pat t)).2 = some (t : Int) :=
+  parseObjIn_format_all off st pat now t h1 h2 hall
+
 /-! ## non-vacuity -/
 
 example : InCentury 946684800000 ∧ InCentury 4102444799999 ∧ ¬ InCentury 4102444800000 := by decide
@@ -317,6 +415,10 @@ example : ∀ c ∈ ['y', 'm', 'd', 'H', 'M', 'S', 's'], c ∈ "y-m-d H:M:S.s".t
 example : format "y-m-d H:M:S.s".toList (fieldsOf 1709210096789) = "2024-02-29 12:34:56.789".toList := by
   decide +kernel
 example : hmsOf 45296789 = ⟨12, 34, 56, 789⟩ := by decide
+example : gregorian 59 = ⟨1970, 3, 1⟩ ∧ weekdayIter 4 = 0 := by decide +kernel
+example : formatIn 20700000 "y-m-d H:M:S.s".toList 1709210096789 = "2024-02-29 18:19:56.789".toList := by decide +kernel
+example : run ⟨0⟩ [(1000, .setDelta 946684799000), (1005, .now), (2000, .hhmm 946684800000)] =
+    [.unit, .int (some 946684800005), .str (some "0000".toList)] := by decide +kernel
 example : ValidDate 2024 2 29 ∧ ¬ ValidDate 2023 2 29 ∧ ¬ ValidDate 2100 2 29 := by decide
 example : (365 * MS_DAY ≤ 1709210096789) ∧ CalFields (fieldsOf 1790642034141) := by decide +kernel
 example : (PStateZ.fill {} (fieldsOf 1790642034141)).Full := fill_full _ _
